@@ -16,6 +16,7 @@ import (
 	"github.com/consensys/gnark/frontend"
 	"github.com/consensys/gnark/frontend/cs/r1cs"
 	"github.com/consensys/gnark/frontend/cs/scs"
+	"strings"
 )
 
 // AnyCS is the field-width independent view of a compiled constraint system.
@@ -89,4 +90,14 @@ func Serialize(cs AnyCS) ([]byte, error) {
 func Digest(b []byte) string {
 	h := sha256.Sum256(b)
 	return hex.EncodeToString(h[:8])
+}
+
+// LogderivCountHint returns the (unexported) multiplicity-counting hint of the log-derivative argument.
+func LogderivCountHint() solver.Hint {
+	for _, h := range solver.GetRegisteredHints() {
+		if strings.HasSuffix(solver.GetHintName(h), "logderivarg.countHint") {
+			return h
+		}
+	}
+	panic("the log-derivative argument's counting hint is not registered")
 }
